@@ -21,6 +21,9 @@ CHECKS = {
  "C04": ("model_checking", "TLC on ZkAbacus.tla/Ledger.tla (safety + liveness) + trace validation of honest runs on the 64-bit boundary lattice",
          "fault-free configuration of ZkAbacus.tla model-checked including liveness under fairness; honest runs at scale 1 and at the exact scale (2^63-1)/7 and boundary-directed random runs "
          "are executed on the real code and TLC recomputes the ideal ledger with limb arithmetic (Big.tla) at every event", "6 C04"),
+ "C05": ("model_checking", "TLC on ZkAbacus.tla (TokenIffOpens) and RevPair.tla + trace validation of wrong-revocation candidates and crafted pairs",
+         "complete_payment is driven with wrong candidates (repeated with identical material) before the right one in TLC-generated and random histories and validated by TLC; revocation pairs are "
+         "generated under chosen secrets and decoded from crafted bytes (incl. non-canonical digests at the modulus boundary) and validated against RevPair.tla with independently recomputed SHA3 facts", "6 C05"),
  "C20": ("model_checking", "TLC on ZkAbacus.tla (Restore refines stuttering) + twin execution at every step validated by TLC",
          "every customer API call of every explored history is executed on the live object and on a twin restored from its bincode image with the same randomness; TLC validates that restores are "
          "stuttering steps and that the twin agrees byte-for-byte (aspect twin) at every event", "6 C20"),
